@@ -4,7 +4,7 @@ own check (and optionally others) run against it with VERIF_REPO pointing at the
 import json, os, subprocess, sys, glob, shutil, time
 
 V = os.path.dirname(os.path.dirname(os.path.abspath(__file__)))
-extra = {"C01-m1": ["C07"], "C02-m2": ["C17"], "C11-m2": ["C19"], "C16-m1": ["C12"], "C03-m2": ["C12"], "C12-m2": ["C08"], "C04-m3": ["C13"], "C12-m4": ["C13"], "C01-m5": ["C17"], "C01-m6": ["C10"], "C04-m6": ["C13"], "C09-m5": ["C14"], "C20-m3": ["C14"], "C02-m3": ["C16"], "C01-m7": ["C07"], "C16-m7": ["C04"], "C02-m8": ["C18"], "C11-m7": ["C15"], "C15-m8": ["C14"], "C01-m9": ["C07", "C08"], "C01-m10": ["C12"], "C07-m10": ["C18"], "C19-m9": ["C13"], "C11-m10": ["C12"], "C15-m9": ["C14"], "C13-m10": ["C18"], "C10-m9": ["C16"], "C02-m9": ["C16"]}
+extra = {"C01-m1": ["C07"], "C02-m2": ["C17"], "C11-m2": ["C19"], "C16-m1": ["C12"], "C03-m2": ["C12"], "C12-m2": ["C08"], "C04-m3": ["C13"], "C12-m4": ["C13"], "C01-m5": ["C17"], "C01-m6": ["C10"], "C04-m6": ["C13"], "C09-m5": ["C14"], "C20-m3": ["C14"], "C02-m3": ["C16"], "C01-m7": ["C07"], "C16-m7": ["C04"], "C02-m8": ["C18"], "C11-m7": ["C15"], "C15-m8": ["C14"], "C01-m9": ["C07", "C08"], "C01-m10": ["C12"], "C07-m10": ["C18"], "C19-m9": ["C13"], "C11-m10": ["C12"], "C15-m9": ["C14"], "C13-m10": ["C18"], "C10-m9": ["C16"], "C02-m9": ["C16"], "C01-m11": ["C18"], "C01-m12": ["C11"], "C03-m11": ["C13"], "C12-m11": ["C01"], "C14-m11": ["C15"], "C07-m11": ["C08"]}
 only = sys.argv[1:]
 out = {}
 for d in sorted(glob.glob(os.path.join(V, "seeded", "C*-m*"))):
